@@ -24,7 +24,7 @@ class C13(Check):
     SHRINK = False
     RULE = ('time-stamp sequences of length 1..60 with dyadic jitter around the period (gaps exactly at both tolerance ends included), periods and units '
             'from {1s, 500ms, 250ms, 2s, 4000us, ...}, default unit s/ms/us, dyadic tolerances in [0,1]; online (one update per stamp) and offline (time column), '
-            'dedicated and combined specification objects, offline objects that already evaluated another badly sampled data set; counter compared with the count of out-of-tolerance gaps computed exactly; values compared with a '
+            'decimal periods / tolerances with the period in a larger unit than the integer time-stamps and gaps exactly on the tolerance interval; dedicated and combined specification objects, offline objects that already evaluated another badly sampled data set; counter compared with the count of out-of-tolerance gaps computed exactly; values compared with a '
             'run on perfectly periodic stamps; non-trivial = at least one gap out of tolerance and one inside; distinct by (stamps, period, unit, tolerance)')
 
     def gen_cases(self, rng, tier):
@@ -68,12 +68,30 @@ class C13(Check):
                 prior = {'time': [float(k * P * rng.choice([1, 2, 4])) if (k * P * 4).denominator == 1 else float(k) for k in range(m)], 'xa': fml.gen_trace(rng, 1, m)[0]}
             cases.append({'f': f, 'n': n, 'nv': 1, 'cols': cols, 'ts': [float(x) for x in ts], 'period': [p, pu, float(tol)], 'unit': du, 'prior': prior,
                           'expected': count_bad(P, tol, ts), 'ngaps': n - 1, 'mon': mon, 'ctor': rng.choice(['split', 'combined'])})
+        # decimal periods and tolerances with the period written in a larger unit than the time-stamps: integer time-stamps whose gaps lie
+        # exactly on the closed tolerance interval (inside) or one time-stamp unit beyond it (outside)
+        dec = [((0.01, 's'), 'ms', 0.1), ((7, 's'), 'ms', 0.9), ((3, 's'), 'ms', 0.78), ((0.5, 'ms'), 'us', 0.2), ((0.02, 's'), 'ms', 0.15), ((2, 'ms'), 'us', 0.3), ((0.1, 's'), 'ms', 0.05)]
+        for k in range(len(dec) * (3 if tier == 'quick' else 40)):
+            (p, pu), du, tol = dec[k % len(dec)]
+            P = Fraction(str(p)) * U[pu] / U[du]
+            T = Fraction(str(tol))
+            lo, hi = P - P * T, P + P * T
+            if lo.denominator != 1 or hi.denominator != 1:
+                continue
+            n = rng.choice([3, 4, 6, 9])
+            ts = [Fraction(rng.choice([0, 5, 1000]))]
+            for _ in range(n - 1):
+                ts.append(ts[-1] + rng.choice([lo, hi, lo, hi, P, lo - 1, hi + 1, lo + 1, hi - 1]))
+            cols = fml.gen_trace(rng, 1, n)
+            cases.append({'f': f, 'n': n, 'nv': 1, 'cols': cols, 'ts': [int(x) for x in ts], 'period': [p, pu, tol], 'unit': du, 'prior': None, 'decimal': 1,
+                          'expected': count_bad(P, T, ts), 'ngaps': n - 1, 'mon': rng.choice(['online', 'offline']), 'ctor': rng.choice(['split', 'combined'])})
         return cases
 
     def model_lines(self, c):
-        P = Fraction(c['period'][0] * U[c['period'][1]], U[c['unit']])
+        P = Fraction(str(c['period'][0])) * U[c['period'][1]] / U[c['unit']]
         q = lambda x: '%d %d' % (Fraction(x).numerator, Fraction(x).denominator)
-        return ['(jitter (%s) (%s) (%s))' % (q(P), q(Fraction(c['period'][2])), ' '.join('(%s)' % q(x) for x in c['ts']))]
+        tol = Fraction(str(c['period'][2])) if c.get('decimal') else Fraction(c['period'][2])
+        return ['(jitter (%s) (%s) (%s))' % (q(P), q(tol), ' '.join('(%s)' % q(x) for x in c['ts']))]
 
     def impl_cases(self, c):
         base = {'vars': ['xa'], 'spec': 'out = ' + fml.to_text(c['f']), 'unit': c['unit'], 'period': c['period'], 'ctor': c['ctor']}
@@ -120,7 +138,7 @@ class C13(Check):
         return 0 < c['expected'] < c['ngaps']
 
     def features(self, c):
-        return ['unit_' + c['unit'], 'punit_' + c['period'][1], c['mon'], c['ctor'], 'tol_%s' % c['period'][2], 'n1' if c['n'] == 1 else 'n>1'] + (['second_evaluate'] if c.get('prior') else [])
+        return ['unit_' + c['unit'], 'punit_' + c['period'][1], c['mon'], c['ctor'], 'tol_%s' % c['period'][2], 'n1' if c['n'] == 1 else 'n>1'] + (['second_evaluate'] if c.get('prior') else []) + (['decimal_boundary'] if c.get('decimal') else [])
 
     def key(self, c):
         return json.dumps([c['ts'], c['period'], c['unit'], c['mon'], c['ctor'], c.get('prior')])
